@@ -245,6 +245,65 @@ static char *struct_of (MIR_context_t ctx, size_t *len) {
   return p;
 }
 
+/* label identity: every label a module refers to - label operands of insns (branches, switch, laddr, ...) and the
+   labels of lref items - is an insn of the insn list of a function of that module (operands: of the function holding
+   the insn; the two labels of an lref: of one function), and no two label insns of a function carry the same number.
+   The text and the bytes name labels by number; loading, linking, interpreting and generating code use the object. */
+static void label_identity (FILE *out, const char *tag, MIR_context_t ctx) {
+  char msg[300];
+  msg[0] = 0;
+  for (MIR_module_t m = DLIST_HEAD (MIR_module_t, *MIR_get_module_list (ctx)); m != NULL && !msg[0]; m = DLIST_NEXT (MIR_module_t, m)) {
+    size_t nl = 0, cap = 64;
+    struct lab_own { MIR_insn_t lab; MIR_func_t fn; } *own = malloc (cap * sizeof (*own));
+    for (MIR_item_t it = DLIST_HEAD (MIR_item_t, m->items); it != NULL; it = DLIST_NEXT (MIR_item_t, it)) {
+      if (it->item_type != MIR_func_item) continue;
+      size_t first = nl;
+      for (MIR_insn_t insn = DLIST_HEAD (MIR_insn_t, it->u.func->insns); insn != NULL; insn = DLIST_NEXT (MIR_insn_t, insn)) {
+        if (insn->code != MIR_LABEL) continue;
+        for (size_t k = first; k < nl && !msg[0]; k++)
+          if (own[k].lab->ops[0].u.i == insn->ops[0].u.i)
+            snprintf (msg, sizeof (msg), "module %s func %s: two label insns with number %lld", m->name, it->u.func->name,
+                      (long long) insn->ops[0].u.i);
+        if (nl == cap) own = realloc (own, (cap *= 2) * sizeof (*own));
+        own[nl].lab = insn;
+        own[nl++].fn = it->u.func;
+      }
+    }
+    for (MIR_item_t it = DLIST_HEAD (MIR_item_t, m->items); it != NULL && !msg[0]; it = DLIST_NEXT (MIR_item_t, it)) {
+      if (it->item_type == MIR_lref_data_item) {
+        MIR_lref_data_t l = it->u.lref_data;
+        MIR_func_t f1 = NULL, f2 = NULL;
+        for (size_t k = 0; k < nl; k++) {
+          if (own[k].lab == l->label) f1 = own[k].fn;
+          if (l->label2 != NULL && own[k].lab == l->label2) f2 = own[k].fn;
+        }
+        if (f1 == NULL || (l->label2 != NULL && f2 == NULL))
+          snprintf (msg, sizeof (msg), "module %s lref %s: label l:%lld is not an insn of any function of the module", m->name,
+                    nm_or_dash (l->name), (long long) (f1 == NULL ? l->label : l->label2)->ops[0].u.i);
+        else if (l->label2 != NULL && f1 != f2)
+          snprintf (msg, sizeof (msg), "module %s lref %s: labels of two functions", m->name, nm_or_dash (l->name));
+      } else if (it->item_type == MIR_func_item) {
+        size_t nth = 0;
+        for (MIR_insn_t insn = DLIST_HEAD (MIR_insn_t, it->u.func->insns); insn != NULL && !msg[0]; insn = DLIST_NEXT (MIR_insn_t, insn), nth++) {
+          if (insn->code == MIR_LABEL) continue;
+          for (size_t i = 0; i < insn->nops && !msg[0]; i++) {
+            if (insn->ops[i].mode != MIR_OP_LABEL) continue;
+            int found = 0;
+            for (size_t k = 0; k < nl && !found; k++) found = own[k].lab == insn->ops[i].u.label && own[k].fn == it->u.func;
+            if (!found)
+              snprintf (msg, sizeof (msg), "module %s func %s insn %lu (%s) operand %lu: label l:%lld is not an insn of the function",
+                        m->name, it->u.func->name, (unsigned long) nth, MIR_insn_name (ctx, insn->code), (unsigned long) i,
+                        (long long) insn->ops[i].u.label->ops[0].u.i);
+          }
+        }
+      }
+    }
+    free (own);
+  }
+  for (char *q = msg; *q; q++) if (*q == '|' || *q == '\n') *q = '/';
+  fprintf (out, "|LI%s=%s", tag, msg[0] ? msg : "ok");
+}
+
 /* ---------------------------------------------------------------- building from a description */
 #define MAXTOK 4096
 #define MAXLAB 100000
@@ -703,6 +762,7 @@ static void run_case (FILE *out, char *desc) {
     emit_text (out, "T0", t0, n0, NULL, 0);
     s0 = struct_of (a, &ns0);
     emit_text (out, "S0", s0, ns0, NULL, 0);
+    label_identity (out, "0", a);
     if (nsegs > 0) {
       /* the context under test was put together by the binary reader from separately written modules */
       emit_text (out, "TS", (char *) seg_text.p, seg_text.n, t0, n0);
@@ -776,6 +836,7 @@ static void run_case (FILE *out, char *desc) {
       s1 = struct_of (b, &ns1);
       emit_text (out, "S1", s1, ns1, s0, ns0);
       emit_counters (out, "1", b);
+      label_identity (out, "1", b);
       /* what was read, written again: the bytes must be the bytes it was read from (every immediate bit for
          bit, also where the text does not show it: NaN payloads, sizes the text abbreviates) */
       STAGE ("rewrite");
@@ -872,6 +933,7 @@ static void run_case (FILE *out, char *desc) {
       fprintf (out, "|RM=ok");
       tg = text_of (g, &ng);
       emit_text (out, "TM", tg, ng, t0, n0);
+      label_identity (out, "M", g);
     }
     fflush (out);
   }
@@ -901,6 +963,7 @@ static void run_case (FILE *out, char *desc) {
       s2 = struct_of (c, &ns2);
       emit_text (out, "S2", s2, ns2, s0, ns0);
       emit_counters (out, "2", c);
+      label_identity (out, "2", c);
     }
     fflush (out);
     if (sc_ok) {
